@@ -151,6 +151,45 @@ for s_i in range(nsetups):
                                   "views": len(views)}})
 
 # ---------------------------------------------------------------------------
+# an untilted probe whose first element, one wall sample per wall and the first scatterer are on one vertical line: rays at
+# exactly 0 / pi at the scatterer, normal incidence at the walls; every kind of scatterer given as FUNCTIONS
+# ---------------------------------------------------------------------------
+for t_i in range(1 if Q else 4):
+    setup = arimgen.immersion_setup(rng, max_refl=1, numelements=2, numscat=2, tilt_deg=0.0, aligned=True)
+    views, block, probe, freq = setup["views"], setup["block"], setup["probe"], setup["freq"]
+    vl, vt = block.longitudinal_vel, block.transverse_vel
+    numel_ = probe.numelements
+    tx, rx = arim.ut.fmc(numel_)
+    rw = bim.ray_weights_for_views(views, freq, 0.5e-3)
+    ang0 = setup["paths"]["LL"].rays and arim.ray.RayGeometry.from_path(setup["paths"]["LL"]).signed_inc_angle(-1)[0, 0]
+    chk.count(aligned_first_ray_angle="exactly 0 or pi" if float(ang0) in (0.0, math.pi, -math.pi) else "not exact")
+    for sname, scattering in (("crack", scat.CrackCentreScat(float(rng.uniform(0.5e-3, 2e-3)), vl, vt, block.density).as_angles_funcs(freq)),
+                              ("sdh", scat.SdhScat(float(rng.uniform(0.2e-3, 1.0e-3)), vl, vt).as_angles_funcs(freq)),
+                              ("point", scat.PointSourceScat(vl, vt).as_angles_funcs(freq))):
+        amps = {vn: np.asarray(model.model_amplitudes_factory(tx, rx, v, rw, scattering)[...]) for vn, v in views.items()}
+        scale = max(float(np.nanmax(np.abs(a))) if np.isfinite(a).any() else 0.0 for a in amps.values()) or 1.0
+        for vn, a in amps.items():
+            rvn = arim.ut.reciprocal_viewname(vn)
+            A = a.reshape(a.shape[0], numel_, numel_)
+            Bt = np.transpose(amps[rvn].reshape(a.shape[0], numel_, numel_), (0, 2, 1))
+            ok_mask = np.isfinite(A) & np.isfinite(Bt)
+            if not ok_mask.any():
+                continue
+            diff = np.where(ok_mask, np.abs(A - Bt), 0.0)
+            res = float(np.max(diff) / scale)
+            evaluations += A.size
+            nontrivial.add(("rec-aligned", t_i, vn, sname))
+            chk.count(scatterer=sname + "-aligned-set-up")
+            if not (res <= (1e-7 if sname == "crack" else RTOL)):
+                g_, i, j = np.unravel_index(int(np.argmax(diff)), A.shape)
+                chk.violation(f"reciprocity-aligned:{sname}", f"P_ij({vn}) != P_ji({rvn}) on an untilted probe with vertical rays (scatterer kind '{sname}')",
+                              {"view": vn, "reciprocal_view": rvn, "scatterer": sname, "i": int(i), "j": int(j), "grid_point": int(g_),
+                               "P_ij": A[g_, i, j], "P_ji_reciprocal": Bt[g_, i, j], "relative_residual": res,
+                               "block": [block.density, vl, vt], "frequency": freq, "probe_locations": probe.locations.coords,
+                               "how": "arimgen.immersion_setup(rng, max_refl=1, numelements=2, numscat=2, tilt_deg=0.0, aligned=True); seed and tier replay it"})
+                break
+
+# ---------------------------------------------------------------------------
 # MANY scatterer positions (an image-sized set: numscat x numtimetraces above 2^18 angle pairs in one evaluation of the
 # scattering functions), direct views: P_ij(view) = P_ji(reciprocal view)
 # ---------------------------------------------------------------------------
@@ -214,7 +253,18 @@ for t_i in range(2 if Q else 12):
         nf_, na_ = int(rng.integers(2, 4)), int(rng.integers(6, 20))
         fs_ = np.sort(rng.uniform(0.8, 1.3, nf_)) * freq
         mats_ = [reciprocal_matrices(na_, block.longitudinal_vel, block.transverse_vel) for _ in range(nf_)]
-        return scat.ScatFromData.from_dict(fs_, {k: np.stack([m[k] for m in mats_]) for k in ("LL", "LT", "TL", "TT")})
+        data_ = {k: np.stack([m[k] for m in mats_]) for k in ("LL", "LT", "TL", "TT")}
+        if rng.random() < 0.6:
+            # the tabulated frequencies listed in another order (high to low / as measured), the matrices with them
+            perm_ = rng.permutation(nf_) if rng.random() < 0.5 else np.arange(nf_)[::-1]
+            fs_ = fs_[perm_]
+            data_ = {k: np.ascontiguousarray(v[perm_]) for k, v in data_.items()}
+            chk.count(tabulated_frequency_order="not increasing")
+        if rng.random() < 0.6:
+            # S_TL derived from S_LT by the reciprocity relation as a transposed (non C-contiguous) array, next to contiguous keys
+            data_["TL"] = -(block.transverse_vel ** 2 / block.longitudinal_vel ** 2) * data_["LT"].transpose(0, 2, 1)
+            chk.count(tabulated_memory_layouts="mixed" if not data_["TL"].flags.c_contiguous else "all contiguous")
+        return scat.ScatFromData.from_dict(fs_, data_)
     kinds.append(("tabulated", tabulated))
     # several non-zero frequencies in one call (the multi-frequency model): every bin must be reciprocal
     freqs = np.array([freq, 0.7 * freq, 1.6 * freq]) if t_i % 2 == 0 else np.array([freq])
